@@ -67,7 +67,7 @@ NS_R = "http://schemas.openxmlformats.org/officeDocument/2006/relationships"
 A = "{%s}" % NS_A
 _PLAIN = etree.XMLParser(remove_blank_text=False, resolve_entities=False)
 
-HOSTS = ["textbox", "autoshape", "title", "body", "cell", "notes", "chart_title", "axis_title", "corpus", "picph"]
+HOSTS = ["textbox", "autoshape", "title", "body", "cell", "notes", "chart_title", "axis_title", "corpus", "picph", "cellnobody"]
 SHAPE_HOSTS = ("textbox", "autoshape", "title", "body", "corpus", "picph")
 LEVELS = ["frame", "owner", "para", "run"]
 
@@ -224,6 +224,16 @@ _BASE = {}
 
 def _base_bytes(host):
     key = {"axis_title": "chart_title"}.get(host, host)
+    if key == "cellnobody" and key not in _BASE:
+        # a table cell without a:txBody (the schema allows it; other producers write it): the text frame creates one
+        from pptx import Presentation as _P
+
+        prs = _P(io.BytesIO(_base_bytes("cell")))
+        tc = prs.slides[0].shapes[0].table.cell(1, 0)._tc
+        tc.remove(tc.txBody)
+        buf = io.BytesIO()
+        prs.save(buf)
+        _BASE[key] = buf.getvalue()
     if key in _BASE:
         return _BASE[key]
     from pptx import Presentation
@@ -287,7 +297,7 @@ def locate(prs, host):
     if host == "body":
         sh = slide.placeholders[1]
         return sh, sh.text_frame
-    if host == "cell":
+    if host in ("cell", "cellnobody"):
         cell = slide.shapes[0].table.cell(1, 0)
         return cell, cell.text_frame
     if host == "notes":
@@ -310,7 +320,7 @@ def sibling_frame(prs, host):
         return slide.placeholders[1].text_frame
     if host == "body":
         return slide.shapes.title.text_frame
-    if host == "cell":
+    if host in ("cell", "cellnobody"):
         return slide.shapes[0].table.cell(0, 1).text_frame
     if host == "chart_title":
         return slide.shapes[0].chart.category_axis.axis_title.text_frame
@@ -322,7 +332,7 @@ def sibling_frame(prs, host):
 def base_level(host, level):
     """call site: frame (TextFrame.text), shape (Shape.text), cell (_Cell.text), para, run"""
     if level == "owner":
-        level = "shape" if host in SHAPE_HOSTS else "cell" if host == "cell" else "frame"
+        level = "shape" if host in SHAPE_HOSTS else "cell" if host in ("cell", "cellnobody") else "frame"
     return level
 
 
